@@ -6,6 +6,8 @@
 -/
 import LW.Driver.Ops
 import LW.Spec.Mac
+import LW.Spec.Frame
+import LW.Spec.Crypto
 import LW.Known
 namespace LW.Driver
 open LW LW.Canon
@@ -18,6 +20,61 @@ def goOk (goRes : String) : Option (Option (List String)) :=
   else none
 
 def viol (prop clause : String) : String := s!"VIOL:{prop}:{clause}"
+
+
+/-- serialised MHDR | MACPayload of a data frame (what the MICs are computed over), via the frame encoder -/
+def msgOf (p : PHY) : Option (FHDR × Option Byte × List Item × Bytes) :=
+  match p.payload with
+  | some (.mac h fp frm) => match macEnc h fp frm with
+    | .ok b => some (h, fp, frm, mhdrEnc p.mtype p.major :: b)
+    | _ => none
+  | _ => none
+
+def parseArgs {α} (args : List String) (p : P α) : Option α := (p args).map (·.1)
+
+def specMicUp (v c dr ch : Nat) (fk sk : Bytes) (p : PHY) : Option Bytes :=
+  (msgOf p).map fun (h, _, _, msg) => Spec.micUp E (v != 0) (BitVec.ofNat 32 c) (byteOfNat dr) (byteOfNat ch) fk sk h.devAddr h.fCnt h.fCtrl.ack msg
+
+def specMicDown (v c : Nat) (k : Bytes) (p : PHY) : Option Bytes :=
+  (msgOf p).map fun (h, _, _, msg) => Spec.micDown E (v != 0) (BitVec.ofNat 32 c) k h.devAddr h.fCnt h.fCtrl.ack msg
+
+/-- compare a Go result that should be `ok x<mic>` / ERR with the specification value -/
+def cmpBytes (prop clause : String) (res : Option (List String)) (want : Option Bytes) : List (String × String) :=
+  match res, want with
+  | some [h], some w => if unhx h == some w then [] else [(prop, clause)]
+  | none, none => []
+  | some _, none => [(prop, clause ++ "-accepts-what-spec-rejects")]
+  | none, some _ => [(prop, clause ++ "-rejects-what-spec-accepts")]
+  | _, _ => [("*", "unparsable-result")]
+
+def cmpBool (prop clause : String) (res : Option (List String)) (want : Option Bool) : List (String × String) :=
+  match res, want with
+  | some [b], some w => if (b == "1") == w then [] else [(prop, clause)]
+  | none, none => []
+  | some _, none => [(prop, clause ++ "-accepts-what-spec-rejects")]
+  | none, some _ => [(prop, clause ++ "-rejects-what-spec-accepts")]
+  | _, _ => [("*", "unparsable-result")]
+
+def splitBar (toks : List String) : List String × List String :=
+  (toks.takeWhile (· != "|"), (toks.dropWhile (· != "|")).drop 1)
+
+/-- the items of a frame as the sender meant them, in wire form (commands normalised to wire resolution) -/
+def normItems (is : List Item) : List String :=
+  is.map fun i => match i with
+    | .cmd c => fmtItem (.cmd { c with payload := c.payload.map Spec.wireNorm })
+    | d => fmtItem d
+
+def allCmds (is : List Item) : Bool := is.all Item.isCmd
+
+/-- a command list is valid for the direction under the registry and the specification's ranges -/
+def cmdsValid (reg : Registry) (up : Bool) (is : List Item) : Bool :=
+  is.all fun i => match i with
+    | .cmd c => (match c.payload, reg.lookup up c.cid.toNat with
+      | none, none => true
+      | some (.proprietary b), some e => e.kind == .proprietary && (b.length : Int) == e.size
+      | some p, some e => e.kind == p.kind && (Spec.enc p).isSome
+      | _, _ => false)
+    | _ => false
 
 /-- all clause verdicts of an op, as (property, verdict) pairs; only those of the property under check are reported -/
 def verdicts (st : DState) (op : String) (args : List String) (goRes : String) : List (String × String) :=
@@ -98,6 +155,178 @@ def verdicts (st : DState) (op : String) (args : List String) (goRes : String) :
           if outItems == want then [] else [("C07", "stream-does-not-decode-to-the-encoded-sequence")]
         | _ => [("C07", "stream-of-valid-commands-rejected")]
       | _, _ => []
+    | "phyrt", toks =>
+      match parseArgs toks frame with
+      | none => []
+      | some f =>
+        match res with
+        | none => if Spec.frameValid f then [("C01", "encoder-refuses-spec-valid-frame")] else []
+        | some out =>
+          let (_, back) := splitBar out
+          if !Spec.shapeOK f then [] else
+          if back == ["ERR"] then [("C01", "decoder-refuses-own-encoding")]
+          else if " ".intercalate back == fmtFrame (Spec.wire f) then [] else [("C01", "roundtrip-differs")]
+    | "phycanon", [h] =>
+      match unhx h, res with
+      | some bs, some out =>
+        let (_, back) := splitBar out
+        if (bs.getD 0 0) &&& 0x1c#8 != 0#8 then [] else
+        if back == ["ERR"] then [("C08", "accepted-frame-not-encodable")]
+        else if back == [hx bs] then [] else [("C08", "reencoding-differs-from-input")]
+      | _, _ => []
+    | "micup", toks =>
+      match parseArgs toks (do let v ← nat; let c ← nat; let dr ← nat; let ch ← nat; let fk ← hex; let sk ← hex; let p ← frame; pure (v, c, dr, ch, fk, sk, p)) with
+      | some (v, c, dr, ch, fk, sk, p) => cmpBytes "C02" "uplink-mic-differs-from-spec" res (specMicUp v c dr ch fk sk p)
+      | none => []
+    | "valup", toks =>
+      match parseArgs toks (do let v ← nat; let c ← nat; let dr ← nat; let ch ← nat; let fk ← hex; let sk ← hex; let p ← frame; pure (v, c, dr, ch, fk, sk, p)) with
+      | some (v, c, dr, ch, fk, sk, p) => cmpBool "C02" "uplink-validate-differs-from-spec" res ((specMicUp v c dr ch fk sk p).map (p.mic == ·))
+      | none => []
+    | "valupf", toks =>
+      match parseArgs toks (do let fk ← hex; let p ← frame; pure (fk, p)) with
+      | some (fk, p) => cmpBool "C02" "cmacF-validate-differs-from-spec" res ((specMicUp 1 0 0 0 fk fk p).map (fun m => p.mic.drop 2 == m.drop 2))
+      | none => []
+    | "micdown", toks =>
+      match parseArgs toks (do let v ← nat; let c ← nat; let k ← hex; let p ← frame; pure (v, c, k, p)) with
+      | some (v, c, k, p) => cmpBytes "C02" "downlink-mic-differs-from-spec" res (specMicDown v c k p)
+      | none => []
+    | "valdown", toks =>
+      match parseArgs toks (do let v ← nat; let c ← nat; let k ← hex; let p ← frame; pure (v, c, k, p)) with
+      | some (v, c, k, p) => cmpBool "C02" "downlink-validate-differs-from-spec" res ((specMicDown v c k p).map (p.mic == ·))
+      | none => []
+    | "encfrm", toks =>
+      match parseArgs toks (do let k ← hex; let u ← boolean; let a ← nat; let c ← nat; let d ← hex; pure (k, u, a, c, d)) with
+      | some (k, u, a, c, d) => cmpBytes "C03" "frmpayload-differs-from-spec-keystream" res (some (Spec.cryptFRM E k u (BitVec.ofNat 32 a) (BitVec.ofNat 32 c) d))
+      | none => []
+    | "encfopts", toks =>
+      match parseArgs toks (do let k ← hex; let af ← boolean; let u ← boolean; let a ← nat; let c ← nat; let d ← hex; pure (k, af, u, a, c, d)) with
+      | some (k, af, u, a, c, d) =>
+        cmpBytes "C03" "fopts-differs-from-spec" res (if d.length > 15 then none else some (Spec.cryptFOpts E k af u (BitVec.ofNat 32 a) (BitVec.ofNat 32 c) d))
+      | none => []
+    | "phyencfopts", toks | "phydecfopts", toks =>
+      match parseArgs toks (do let k ← hex; let p ← frame; pure (k, p)) with
+      | some (k, p) =>
+        match p.payload with
+        | some (.mac h fp frm) =>
+          if h.fOpts.isEmpty then [] else
+          match encItems h.fOpts with
+          | .ok macB =>
+            let want : Option Bytes := if macB.length > 15 then none else
+              some (Spec.cryptFOpts E k (Spec.useAFCntDown p.isUplink fp) p.isUplink h.devAddr h.fCnt macB)
+            match res, want with
+            | some _, none => [("C03", "phy-fopts-success-without-transform")]
+            | some out, some w =>
+              if op == "phyencfopts" then
+                (match parseArgs out frame with
+                 | some q => if q.payload == some (.mac { h with fOpts := [.data w] } fp frm) then [] else [("C03", "phy-fopts-differs-from-spec")]
+                 | none => [("*", "unparsable-result")])
+              else []
+            | none, some _ => if op == "phyencfopts" then [("C03", "phy-fopts-rejects-valid")] else []
+            | none, none => []
+          | _ => (if res.isSome then [("C03", "phy-fopts-success-without-transform")] else [])
+        | _ => if res.isSome then [("C03", "phy-fopts-success-on-non-data-frame")] else []
+      | none => []
+    | "phyencfrm", toks =>
+      match parseArgs toks (do let k ← hex; let p ← frame; pure (k, p)) with
+      | some (k, p) =>
+        match p.payload with
+        | some (.mac h fp frm) =>
+          if frm.isEmpty then [] else
+          match frmEnc fp frm, res with
+          | .ok d, some out =>
+            (match parseArgs out frame with
+             | some q => if q.payload == some (.mac h fp [.data (Spec.cryptFRM E k p.isUplink h.devAddr h.fCnt d)]) then [] else [("C03", "phy-frm-differs-from-spec")]
+             | none => [("*", "unparsable-result")])
+          | .ok _, none => [("C03", "phy-frm-rejects-valid")]
+          | _, some _ => [("C03", "phy-frm-success-without-transform")]
+          | _, none => []
+        | _ => if res.isSome then [("C03", "phy-frm-success-on-non-data-frame")] else []
+      | none => []
+    | "micjoin", toks =>
+      match parseArgs toks (do let k ← hex; let p ← frame; pure (k, p)) with
+      | some (k, p) =>
+        cmpBytes "C04" "join-mic-differs-from-spec" res
+          (match p.payload with
+           | some pl => (match pl.enc with | .ok b => some (Spec.micJoin E k (mhdrEnc p.mtype p.major) b) | _ => none)
+           | none => none)
+      | none => []
+    | "micja", toks =>
+      match parseArgs toks (do let t ← nat; let e ← nat; let n ← nat; let k ← hex; let p ← frame; pure (t, e, n, k, p)) with
+      | some (t, e, n, k, p) =>
+        cmpBytes "C04" "join-accept-mic-differs-from-spec" res
+          (match p.payload with
+           | some (.joinAccept ja) => (match ja.enc with
+             | .ok b => some (Spec.micJoinAccept E k ja.optNeg (byteOfNat t) (BitVec.ofNat 64 e) (BitVec.ofNat 16 n) (mhdrEnc p.mtype p.major) b)
+             | _ => none)
+           | _ => none)
+      | none => []
+    | "encja", toks =>
+      match parseArgs toks (do let k ← hex; let p ← frame; pure (k, p)) with
+      | some (k, p) =>
+        match p.payload, res with
+        | some (.joinAccept ja), some out =>
+          (match ja.enc, parseArgs out frame with
+           | .ok b, some q =>
+             let ct := Spec.encryptJoinAccept E k (b ++ p.mic)
+             (if q.payload == some (.data (ct.take (ct.length - 4))) && q.mic == ct.drop (ct.length - 4) then [] else [("C04", "join-accept-ciphertext-differs-from-spec")]) ++
+             (if Spec.deviceDecryptJoinAccept E k ct == b ++ p.mic then [] else [("C04", "device-cannot-recover-join-accept")])
+           | _, _ => [("C04", "join-accept-encrypt-accepts-what-spec-rejects")])
+        | _, _ => []
+      | none => []
+    | "exchange", toks =>
+      match parseArgs toks (do
+        let v ← nat; let c ← nat; let dr ← nat; let ch ← nat; let fk ← hex; let sk ← hex; let ek ← hex; let ak ← hex
+        let t ← nat; let p ← frame
+        pure (v, c, dr, ch, fk, sk, ek, ak, t, p)) with
+      | some (v, c, dr, ch, fk, sk, ek, ak, t, p) =>
+        match p.payload, res with
+        | some (.mac h fp frm), some (bsHex :: rest) =>
+          let lp : LinkParams := { ver := byteOfNat v, conf := BitVec.ofNat 32 c, txDr := byteOfNat dr, txCh := byteOfNat ch, fKey := fk, sKey := sk }
+          if t == 0 then
+            -- untampered: a valid frame must be accepted and yield the original commands / payload
+            let up := isUpData p.mtype
+            let foptsOk := h.fOpts.isEmpty || (allCmds h.fOpts && cmdsValid st.reg up h.fOpts)
+            let frmOk := frm.isEmpty || (if fp == some 0 then allCmds frm && cmdsValid st.reg up frm else frm.all (fun i => !i.isCmd))
+            if !(foptsOk && frmOk && Spec.frameValid p) then [] else
+            match rest with
+            | "accepted" :: ftoks =>
+              (match parseArgs ftoks frame with
+               | some q =>
+                 (match q.payload with
+                  | some (.mac h' fp' frm') =>
+                    let wantF := normItems h.fOpts
+                    let wantR := if fp == some 0 then normItems frm
+                                 else (let b := Spec.frmBytes fp frm; if b.isEmpty then [] else [fmtItem (.data b)])
+                    if h'.fOpts.map fmtItem == wantF && frm'.map fmtItem == wantR && fp' == fp && h'.devAddr == h.devAddr && h'.fCnt == h.fCnt
+                    then [] else [("C05", "receiver-content-differs-from-sender")]
+                  | _ => [("C05", "receiver-content-differs-from-sender")])
+               | none => [("C05", "receiver-failed-on-valid-frame")])
+            | _ => [("C05", "receiver-rejects-or-fails-on-untampered-valid-frame")]
+          else
+            -- tampered: accepted exactly when the specification's MIC over the received bytes, with the receiver's parameters, matches
+            match unhx bsHex with
+            | some bs =>
+              let fcnt := h.fCnt
+              let (lp', hi, _) := tamperOf t lp (fcnt &&& 0xffff0000#32) []
+              (match PHY.dec bs with
+               | .ok q => (match q.payload with
+                 | some (.mac hq _ _) =>
+                   let fc := hi ||| (hq.fCnt &&& 0xffff#32)
+                   let msg := bs.take (bs.length - 4)
+                   let mic := bs.drop (bs.length - 4)
+                   let want := if isUpData q.mtype then Spec.micUp E (lp'.ver != 0) lp'.conf lp'.txDr lp'.txCh lp'.fKey lp'.sKey hq.devAddr fc hq.fCtrl.ack msg
+                               else Spec.micDown E (lp'.ver != 0) lp'.conf lp'.sKey hq.devAddr fc hq.fCtrl.ack msg
+                   let canonical := (bs.getD 0 0) &&& 0x1c#8 == 0#8
+                   if !canonical then [] else
+                   (match rest with
+                    | "accepted" :: _ => if want == mic then [] else [("C05", "tampered-frame-accepted-although-spec-mic-differs")]
+                    | ["rejected"] => if want == mic then [("C05", "frame-rejected-although-spec-mic-matches")] else []
+                    | _ => [])
+                 | _ => [])
+               | _ => [])
+            | none => []
+        | _, _ => []
+      | none => []
     | _, _ => []
 
 def verdict (prop : String) (st : DState) (op : String) (args : List String) (goRes : String) : String :=
